@@ -145,7 +145,6 @@ static int parsec_termdet_fourcounter_msg_dispatch_taskpool(parsec_taskpool_t *t
     (void)module;
     (void)ce;
 
-    parsec_list_unlock(&parsec_termdet_fourcounter_delayed_messages);
     PARSEC_DEBUG_VERBOSE(10, parsec_debug_output, "TERMDET-4C:\tReceived %d bytes from %d relative to taskpool %d",
                          size, src, tp->taskpool_id);
 
@@ -351,9 +350,15 @@ static int parsec_termdet_fourcounter_taskpool_ready(parsec_taskpool_t *tp)
         down_msg = (parsec_termdet_fourcounter_msg_down_t*)delayed_msg->msg;
         if(down_msg->tp_id == tp->taskpool_id) {
             parsec_list_nolock_remove(&parsec_termdet_fourcounter_delayed_messages, item);
+            /* Handle the message outside of the list lock: it may terminate the
+             * taskpool, and the termination callback may make another taskpool ready. */
+            parsec_list_unlock(&parsec_termdet_fourcounter_delayed_messages);
             parsec_termdet_fourcounter_msg_dispatch_taskpool(tp, delayed_msg->ce, delayed_msg->tag,
                                                             delayed_msg->msg, delayed_msg->size,
                                                             delayed_msg->src, delayed_msg->module);
+            parsec_list_lock(&parsec_termdet_fourcounter_delayed_messages);
+            /* The list may have changed while it was unlocked: restart the scan */
+            next = PARSEC_LIST_ITERATOR_FIRST(&parsec_termdet_fourcounter_delayed_messages);
         }
     }
     parsec_list_unlock(&parsec_termdet_fourcounter_delayed_messages);
